@@ -79,6 +79,15 @@ func decideAndGov(signer string, id uint64, dec int, gname, signers string, min,
 	return a
 }
 
+// failing turns a governance letter into a proposal that passes the vote and is rolled back as a whole
+// when it is executed (its last message fails).
+func failing(a Action) Action {
+	g := *a.Gov
+	g.FailAfter = true
+	a.Gov = &g
+	return a
+}
+
 func c03Scenario(name string, signers []string, min uint64, fullGov bool) *Scenario {
 	g := BaseGenesis(
 		mc.AcctSpec{Name: "S1", Coins: Coins(1000, 0)}, mc.AcctSpec{Name: "S2", Coins: Coins(1000, 0)}, mc.AcctSpec{Name: "S3", Coins: Coins(1000, 0)},
@@ -109,6 +118,7 @@ func c03Scenario(name string, signers []string, min uint64, fullGov bool) *Scena
 			entGov("gov(signers=S1,S2,S3;min=3)", "S1,S2,S3", 3, 100, "gov", 1),
 			entGov("gov(signers=S1,S2,S3;min=1)", "S1,S2,S3", 1, 100, "gov", 1),
 			entGov("gov(limit=10)", "S1,S2,S3", 2, 10, "gov", 1),
+			failing(entGov("gov(signers=S1,O;min=1)+failing-msg", "S1,O", 1, 100, "gov", 1)),
 			decideAndGov("S2", 1, 2, "gov(signers=S1,S2,S3;min=3)", "S1,S2,S3", 3, 100),
 			decideAndGov("S2", 1, 2, "gov(signers=S1;min=1)", "S1", 1, 100),
 			decideAndGov("S2", 1, 3, "gov(signers=S1,S2,S3;min=1)", "S1,S2,S3", 1, 100),
@@ -117,7 +127,7 @@ func c03Scenario(name string, signers []string, min uint64, fullGov bool) *Scena
 	return s
 }
 
-var c03Owns = ownsAny("ent.order", "ent.locked", "ent.whitelist", "ent.transition", "ent.terminal_changed", "tx.accept_unexpected:ent.")
+var c03Owns = ownsAny("ent.order", "ent.locked", "ent.whitelist", "ent.transition", "ent.terminal_changed", "tx.accept_unexpected:ent.", "tx.reject_unexpected:ent.")
 
 func init() {
 	Checks["C03"] = func() *Check {
